@@ -602,8 +602,15 @@ class Scenario:
     contain {'lex': v, 'res': v}: truth of "result lies inside the root" (lexically / after resolve()) under the scenario
     """
 
-    def __init__(self, name, bind=None, seqs=None, cenv=None, slash=(), tainted=(), contain=None, taint_mutated=False, taint_through_calls=False, describe=None):
+    def __init__(self, name, bind=None, seqs=None, cenv=None, slash=(), tainted=(), contain=None, taint_mutated=False, taint_through_calls=False, describe=None,
+                 effects=None, fail=None):
         self.name = name
+        # effects {(function qn, CFG node id)}: statements that touch the outside world; a state that has completed one
+        # carries the flag "touched".  fail {(function qn, CFG node id): exception class name}: such a statement fails
+        # with that exception -- instead of having its effect -- when it is the first effect on the path (the state is
+        # not "touched" and not already on an exceptional path); the state is then flagged "failed:<qn>:<node id>".
+        self.effects = effects
+        self.fail = fail or {}
         self.bind = bind or (lambda text: None)
         self.seqs = dict(seqs or {})
         self.cenv = dict(cenv or {})
@@ -705,6 +712,28 @@ def is_boolean_typed(e):
     return False
 
 
+def distribute(e):
+    """A comparison one of whose operands is a choice between values, rewritten as the choice between the
+    comparisons: `(a if t else b) OP c` is `(a OP c) if t else (b OP c)`; `(a or b) OP c` is `(a OP c) if a else
+    (b OP c)`; `(a and b) OP c` is `(b OP c) if a else (a OP c)`.  (Values are side-effect free syntax trees, so
+    mentioning `a` twice is harmless.)  None when there is nothing to distribute."""
+    if not (isinstance(e, ast.Compare) and len(e.ops) == 1):
+        return None
+    l, r = e.left, e.comparators[0]
+    for left_side, x in ((True, l), (False, r)):
+        mk = (lambda v: ast.Compare(left=v, ops=list(e.ops), comparators=[r])) if left_side else \
+             (lambda v: ast.Compare(left=l, ops=list(e.ops), comparators=[v]))
+        if isinstance(x, ast.IfExp):
+            return ast.IfExp(test=x.test, body=mk(x.body), orelse=mk(x.orelse))
+        if isinstance(x, ast.BoolOp) and len(x.values) >= 2 and not is_boolean_typed(x):
+            first = x.values[0]
+            rest = x.values[1] if len(x.values) == 2 else ast.BoolOp(op=x.op, values=list(x.values[1:]))
+            if isinstance(x.op, ast.Or):
+                return ast.IfExp(test=first, body=mk(first), orelse=mk(rest))
+            return ast.IfExp(test=first, body=mk(rest), orelse=mk(first))
+    return None
+
+
 _NORMALIZER = norm.Normalizer()
 
 
@@ -799,6 +828,80 @@ def _local_names(fnode):
     return out
 
 
+def _module_bindings(m, name):
+    """value expressions of every binding of `name` at the top level of module m (inside if/try/for/with/while
+    blocks too, not inside functions or classes); None stands for a binding that is not a plain `name = value`"""
+    cached = getattr(m, "_c19_bindings", None)
+    if cached is None:
+        cached = {}
+
+        def add(n, v):
+            cached.setdefault(n, []).append(v)
+
+        def targets(t, v):
+            if isinstance(t, ast.Name):
+                add(t.id, v)
+            elif isinstance(t, (ast.Tuple, ast.List)):
+                for x in t.elts:
+                    targets(x.value if isinstance(x, ast.Starred) else x, None)
+
+        def scan(body):
+            for stn in body:
+                if isinstance(stn, ast.Assign):
+                    for t in stn.targets:
+                        targets(t, stn.value)
+                elif isinstance(stn, ast.AnnAssign):
+                    if stn.value is not None:
+                        targets(stn.target, stn.value)
+                elif isinstance(stn, ast.AugAssign):
+                    targets(stn.target, None)
+                elif isinstance(stn, (ast.FunctionDef, ast.AsyncFunctionDef, ast.ClassDef)):
+                    add(stn.name, None)
+                elif isinstance(stn, (ast.Import, ast.ImportFrom)):
+                    for a in stn.names:
+                        add((a.asname or a.name).split(".")[0], None)
+                elif isinstance(stn, ast.Delete):
+                    for t in stn.targets:
+                        targets(t, None)
+                else:
+                    if isinstance(stn, (ast.For, ast.AsyncFor)):
+                        targets(stn.target, None)
+                    if isinstance(stn, (ast.With, ast.AsyncWith)):
+                        for it in stn.items:
+                            if it.optional_vars is not None:
+                                targets(it.optional_vars, None)
+                    for n in ast.walk(stn) if isinstance(stn, ast.Expr) else ():
+                        if isinstance(n, ast.NamedExpr):
+                            targets(n.target, None)
+                    for sub in ("body", "orelse", "finalbody"):
+                        scan(getattr(stn, sub, None) or [])
+                    for h in getattr(stn, "handlers", None) or []:
+                        if h.name:
+                            add(h.name, None)
+                        scan(h.body)
+                    for c in getattr(stn, "cases", None) or []:
+                        scan(c.body)
+
+        scan(m.tree.body)
+        try:
+            m._c19_bindings = cached
+        except Exception:
+            pass
+    return cached.get(name, [])
+
+
+def _literal(v):
+    """value of a literal expression (numbers, strings, bytes, None, booleans, tuples of these); ValueError otherwise"""
+    if isinstance(v, ast.Constant) and v.value is not Ellipsis:
+        return v.value
+    if isinstance(v, ast.UnaryOp) and isinstance(v.op, (ast.USub, ast.UAdd)) and isinstance(v.operand, ast.Constant) \
+            and isinstance(v.operand.value, (int, float)) and not isinstance(v.operand.value, bool):
+        return -v.operand.value if isinstance(v.op, ast.USub) else v.operand.value
+    if isinstance(v, ast.Tuple):
+        return tuple(_literal(x) for x in v.elts)
+    raise ValueError("not a literal")
+
+
 class SX:
     MAX_STATES = 60000
     MAX_VALUE_SIZE = 160
@@ -814,6 +917,10 @@ class SX:
         self.class_volatile = self._class_volatile()
         self.nstates = 0
         self._nt = {}
+        self._named = {}
+        self._shadow = None
+        self.refused_funcs = set()  # qualified names of functions a call to which could not be stepped into
+        self.wrapped = {}  # entry function qn -> qn of the wrapper its decorators put in its place
 
     # -- class facts -------------------------------------------------------
     def _class_volatile(self):
@@ -854,12 +961,57 @@ class SX:
             self._nt[qn] = res
         return self._nt[qn]
 
+    def isinstance_tv(self, v, cexpr):
+        """isinstance(v, cexpr) for an instance whose class the executor knows (constructed in the code under
+        analysis, or the exception a failing effect raises): True / False / None"""
+        from ..model import BUILTIN_EXC
+        p = opaque_parts(v)
+        if p is None:
+            return None
+        if getattr(v, "_ctor", False) and getattr(v, "_cls", None):
+            start = v._cls
+        elif v.func.id == "$exc@fail" and chain(p[0]) in BUILTIN_EXC:
+            start = chain(p[0])
+        else:
+            return None
+        mro = self.prog.mro(start)
+        complete = all(q in self.prog.classes or q in BUILTIN_EXC or q == "object" for q in mro)
+        names = {q.split(".")[-1] for q in mro} | {"object"}
+        res = []
+        for c in (cexpr.elts if isinstance(cexpr, ast.Tuple) else [cexpr]):
+            ch = chain(c)
+            if not ch or ch.split(".")[0] in self._shadowable():
+                return None
+            last = _EXC_ALIASES.get(ch.split(".")[-1], ch.split(".")[-1])
+            res.append(True if last in names else (False if complete else None))
+        if any(r is True for r in res):
+            return True
+        return False if all(r is False for r in res) else None
+
+    def nt_candidates(self, names):
+        """namedtuple classes of the package that have all the given field names"""
+        out = []
+        for qn in self.prog.classes:
+            f = self.nt_fields(qn)
+            if f and set(names) <= set(f):
+                out.append(qn)
+        return out
+
+    def replace_parts(self, v):
+        """(base value, {field: new value}) when v is `base._replace(field=value, ...)` on a value of unknown class"""
+        p = opaque_parts(v)
+        if p is None or p[1] or not p[2] or not isinstance(p[0], ast.Attribute) or p[0].attr != "_replace" or any(k.arg is None for k in p[2]):
+            return None
+        return p[0].value, {k.arg: k.value for k in p[2]}
+
     def instance_truthy(self, qn):
         """instances of the class are always truthy: no __bool__/__len__ anywhere in a fully known ancestry"""
+        from ..model import BUILTIN_EXC
         for q in self.prog.mro(qn):
             ci = self.prog.classes.get(q)
             if ci is None:
-                if q in ("object",):
+                if q in ("object",) or q in BUILTIN_EXC:
+                    # the builtin exception classes define neither __bool__ nor __len__
                     continue
                 return False
             if "__bool__" in ci.methods or "__len__" in ci.methods:
@@ -867,6 +1019,159 @@ class SX:
             if self.nt_fields(q) is not None:
                 return False
         return True
+
+    # -- named constants -------------------------------------------------------
+    # A helper may hand its verdict back as a *value* the caller then dispatches on -- `return codes.FORBIDDEN` /
+    # `return None`, an exception class, a module-level sentinel -- and the caller tests it by identity, equality,
+    # membership or truth (`if refusal is not None`, `if code in (FORBIDDEN, BAD_REQUEST)`, `if verdict is _PROCEED`).
+    # The executor keeps one state per path, so the value a local holds on the path on which the scenario root was
+    # tested is known; what is needed on top is the *relation between two program-level constants*.  It is derived
+    # from their definitions only (never from their names):
+    #   ('class', qn) / ('func', qn)      a class / function object of the package
+    #   ('sentinel', qn)                  a module-level name bound once to `object()`
+    #   ('lit', v)                        a module-level name bound once to a literal
+    #   ('attr', class qn, name, v)       a class-level attribute bound to the literal v: the literal itself in a plain
+    #                                     class, the member wrapping it in an enumeration -- the facts used below hold
+    #                                     for both readings
+    def _shadowable(self):
+        """names that are local to some function of the owner's module: a chain starting with one of them is not
+        (certainly) a reference to a module-level binding"""
+        if self._shadow is None:
+            out = set()
+            for f in self.prog.funcs.values():
+                if f.module is self.owner.module:
+                    out |= _local_names(f.node)
+            self._shadow = out
+        return self._shadow
+
+    def named(self, e):
+        """identity of the program-level constant the value `e` refers to, else None"""
+        if not isinstance(e, (ast.Name, ast.Attribute)):
+            return None
+        c = chain(e)
+        if not c or c.startswith("$"):
+            return None
+        if c not in self._named:
+            self._named[c] = None
+            if c.split(".")[0] not in self._shadowable():
+                try:
+                    self._named[c] = self._resolve_const(self.owner.module, c, 0)
+                except (AnalysisError, KeyError, ValueError, RecursionError):
+                    self._named[c] = None
+        return self._named[c]
+
+    def _resolve_const(self, m, dotted, depth):
+        prog = self.prog
+        if depth > 6:
+            return None
+        parts = dotted.split(".")
+        head = parts[0]
+        if head in m.imports:
+            q = ".".join([m.imports[head]] + parts[1:])
+        elif (m.name + "." + head) in prog.classes or (m.name + "." + head) in prog.funcs or _module_bindings(m, head):
+            q = m.name + "." + dotted
+        else:
+            return None  # a builtin or a name the checker cannot see
+        q = prog.canonical(q)
+        if q in prog.classes:
+            return ("class", q)
+        if q in prog.funcs:
+            return ("func", q)
+        parts = q.split(".")
+        for i in range(len(parts) - 1, 0, -1):
+            pre, rest = ".".join(parts[:i]), parts[i:]
+            if pre in prog.classes:
+                if len(rest) != 1:
+                    return None
+                v, ci = prog.class_attr(pre, rest[0])
+                if v is None or any(rest[0] in prog.classes[k].methods for k in prog.mro(pre) if k in prog.classes):
+                    return None
+                try:
+                    return ("attr", ci.qn, rest[0], _literal(v))
+                except ValueError:
+                    return None
+            if pre in prog.modules:
+                m2 = prog.modules[pre]
+                binds = _module_bindings(m2, rest[0])
+                if len(binds) != 1 or binds[0] is None:
+                    return None
+                v = binds[0]
+                if isinstance(v, (ast.Name, ast.Attribute)) and chain(v):
+                    return self._resolve_const(m2, ".".join([chain(v)] + rest[1:]), depth + 1)
+                if len(rest) != 1:
+                    return None
+                if isinstance(v, ast.Call) and chain(v.func) == "object" and not v.args and not v.keywords and "object" not in m2.imports \
+                        and not _module_bindings(m2, "object"):
+                    return ("sentinel", q)
+                try:
+                    return ("lit", _literal(v))
+                except ValueError:
+                    return None
+        return None
+
+    def const_of(self, e):
+        """classification of a value for const_relation: a named constant, a literal, or None"""
+        if isinstance(e, ast.Constant):
+            return None if e.value is Ellipsis else ("lit", e.value)
+        return self.named(e)
+
+    def const_relation(self, a, b):
+        """(equal, identical): each True / False / None (not determined) for two values.
+
+        Sound for both readings of a class-level literal attribute (plain attribute: the literal; enumeration
+        member: an object wrapping it, equal to another member of the same enumeration iff their values are equal,
+        aliases being the same member): different literals -> neither equal nor identical; the same attribute ->
+        identical; equal literals under different names -> equal in both readings, identity left open.  Classes,
+        functions and `object()` sentinels are equal only to themselves."""
+        ca, cb = self.const_of(a), self.const_of(b)
+        if ca is None or cb is None:
+            return None, None
+        if ca[0] == "lit" and cb[0] == "lit":
+            try:
+                eq = bool(ca[1] == cb[1])
+            except Exception:
+                return None, None
+            single = lambda v: v is None or isinstance(v, bool)
+            if single(ca[1]) or single(cb[1]):
+                return eq, (ca[1] is cb[1])
+            return eq, (False if not eq else None)
+        objs = ("class", "func", "sentinel")
+        if ca[0] in objs or cb[0] in objs:
+            same = ca == cb
+            return same, same
+        # at least one class-level attribute, the other one an attribute or a literal
+        va, vb = ca[-1], cb[-1]
+        if ca[0] == "attr" and cb[0] == "attr" and ca[1:3] == cb[1:3]:
+            return True, True
+        try:
+            differ = type(va) is not type(vb) and not (isinstance(va, (int, float)) and isinstance(vb, (int, float))) or bool(va != vb)
+        except Exception:
+            return None, None
+        if differ:
+            return False, False
+        if ca[0] == "attr" and cb[0] == "attr" and ca[1] == cb[1]:
+            return True, None  # two names for one value in one class
+        return None, None
+
+    def const_truth(self, e):
+        """truth of a named constant, or None"""
+        nm = self.named(e)
+        if nm is None:
+            return None
+        if nm[0] in ("class", "func", "sentinel"):
+            return True
+        if nm[0] == "lit":
+            return bool(nm[1])
+        # a class-level literal: truthy as a plain value; as an enumeration member it is truthy by default and by its
+        # value when the enumeration derives from int/str -- unless the class says otherwise
+        known = True
+        for q in self.prog.mro(nm[1]):
+            ci = self.prog.classes.get(q)
+            if ci is None:
+                continue
+            if "__bool__" in ci.methods or "__len__" in ci.methods:
+                known = False
+        return True if (known and nm[3]) else None
 
     # -- taint ---------------------------------------------------------------
     def tainted(self, e):
@@ -988,15 +1293,30 @@ class SX:
     def is_result(self, e):
         """(is <root> / "/".join(<the whole scenario sequence>) or <root>.joinpath(*seq), resolved?)"""
         core, res = self.strip_wrappers(e)
+        ctors = PATH_WRAPPERS - {"str", "os.fspath", "os.path.abspath", "os.path.realpath", "os.path.normpath"}
+
+        def tail(args):
+            """the arguments that follow the root are the whole sequence: `*seq` or "/".join(seq)"""
+            if len(args) != 1:
+                return False
+            if isinstance(args[0], ast.Starred):
+                return self._whole(self.seq_of(args[0].value))
+            return self._whole(self.joined_seq(args[0]))
+
         if isinstance(core, ast.BinOp) and isinstance(core.op, ast.Div):
             r, res2 = self.is_root(core.left)
             if r and self._whole(self.joined_seq(core.right)):
                 return True, res or False
-        if isinstance(core, ast.Call) and isinstance(core.func, ast.Attribute) and core.func.attr == "joinpath" and len(core.args) == 1 \
-                and isinstance(core.args[0], ast.Starred):
+            if r and isinstance(core.right, ast.Call) and chain(core.right.func) in ctors and not core.right.keywords and tail(core.right.args):
+                return True, res or False  # root / Path(*seq)
+        if isinstance(core, ast.Call) and isinstance(core.func, ast.Attribute) and core.func.attr == "joinpath" and not core.keywords:
             r, _ = self.is_root(core.func.value)
-            if r and self._whole(self.seq_of(core.args[0].value)):
+            if r and tail(core.args):
                 return True, res
+        if isinstance(core, ast.Call) and chain(core.func) in ctors and not core.keywords and len(core.args) == 2:
+            r, _ = self.is_root(core.args[0])
+            if r and tail(core.args[1:]):
+                return True, res  # Path(root, *seq)
         return False, False
 
     def _whole(self, segs):
@@ -1058,6 +1378,9 @@ class SX:
                     res, legit = None, legit and l
                 left = right
             return res, legit
+        d = distribute(e)
+        if d is not None:
+            return self.tv3(d, st)
         v, legit = self.oracle(e, st)
         if v is not None:
             return v, True
@@ -1080,6 +1403,11 @@ class SX:
             return True
         p = opaque_parts(e)
         if p is not None and e.func.id.startswith("$call") and getattr(e, "_ctor", False):
+            return True
+        nm = self.named(e)
+        if nm is not None and nm[-1] is not None:
+            # a class, a function, a sentinel object, a non-None literal, or a class-level attribute bound to a
+            # non-None literal (that literal, or the enumeration member made from it)
             return True
         return False
 
@@ -1105,6 +1433,10 @@ class SX:
                 return True, True
             if e.id.startswith("$g"):
                 return None, True
+        if isinstance(e, (ast.Name, ast.Attribute)):
+            t = self.const_truth(e)
+            if t is not None:
+                return t, True
         segs = self.seq_of(e) if isinstance(e, (ast.Name, ast.Subscript, ast.Call)) else None
         if segs is not None:
             if any(k == "one" for k, _ in segs):
@@ -1125,6 +1457,10 @@ class SX:
                 for a, b in ((l, r), (r, l)):
                     if isinstance(a, ast.Constant) and a.value is None and self.non_none(b):
                         return isinstance(op, (ast.IsNot, ast.NotEq)), True
+                eq, ident = self.const_relation(l, r)
+                rel = ident if isinstance(op, (ast.Is, ast.IsNot)) else eq
+                if rel is not None:
+                    return rel == isinstance(op, (ast.Is, ast.Eq)), True
             if isinstance(op, (ast.Eq, ast.NotEq, ast.Lt, ast.LtE, ast.Gt, ast.GtE)):
                 ll, lr = self.linform(l), self.linform(r)
                 if ll is not None and lr is not None:
@@ -1162,6 +1498,9 @@ class SX:
                 return self.anyall(fn, e.args[0], st)
             if fn == "bool" and len(e.args) == 1 and not e.keywords:
                 return self.tv3(e.args[0], st)
+            if fn == "isinstance" and len(e.args) == 2 and not e.keywords:
+                v = self.isinstance_tv(e.args[0], e.args[1])
+                return (v, True) if v is not None else una
             if fn == "len" and len(e.args) == 1:
                 lf = self.linform(e)
                 if lf is not None:
@@ -1233,6 +1572,22 @@ class SX:
         return None, not self.tainted(x)
 
     def member(self, c, container):
+        # a named constant looked up in a display of constants: `code in (FORBIDDEN, BAD_REQUEST)`, `in {A: .., B: ..}`
+        elts = None
+        if isinstance(container, (ast.Tuple, ast.List, ast.Set)) and not any(isinstance(x, ast.Starred) for x in container.elts):
+            elts = container.elts
+        elif isinstance(container, ast.Dict) and all(k is not None for k in container.keys):
+            elts = container.keys
+        elif isinstance(container, ast.Call) and chain(container.func) in ("frozenset", "set", "tuple", "list") and len(container.args) == 1 \
+                and not container.keywords and isinstance(container.args[0], (ast.Tuple, ast.List, ast.Set)) \
+                and not any(isinstance(x, ast.Starred) for x in container.args[0].elts):
+            elts = container.args[0].elts
+        if elts is not None and self.const_of(c) is not None:
+            res = [self.const_relation(c, x)[0] for x in elts]
+            if any(v is True for v in res):
+                return True, True
+            if all(v is False for v in res):
+                return False, True
         # substring tests on a distinguished "contains a slash" string
         if isinstance(container, ast.Name) and container.id in self.sc.slash:
             cv = self.elem_value(c)
@@ -1432,6 +1787,9 @@ class SX:
                 parts.append(ast.Compare(left=left, ops=[op], comparators=[right]))
                 left = right
             return self.branch(ast.BoolOp(op=ast.And(), values=parts), st)
+        d = distribute(e)
+        if d is not None:
+            return self.branch(d, st)
         k, pol = akey(e)
         fl = () if legit else ("uncertain:" + T(e)[:90],)
         return [(st.decide(k, pol).flag(*fl), True), (st.decide(k, not pol).flag(*fl), False)]
@@ -1575,7 +1933,22 @@ def _sx_simplify(self, e):
                     return segs[i][1]
                 if i < 0 and len(segs) >= -i and all(k == "one" for k, _ in segs[i:]):
                     return segs[i][1]
+    if isinstance(e, ast.Subscript) and isinstance(e.value, ast.Dict) and not isinstance(e.slice, ast.Slice):
+        found, v = self.table_lookup(e.value, e.slice)
+        if found:
+            return v
     if isinstance(e, ast.Attribute):
+        rp = self.replace_parts(e.value)
+        if rp is not None:
+            # the namedtuple protocol: X._replace(f=v).f is v and X._replace(f=v).g is X.g for every other *field* g
+            # (g is taken for a field only when every namedtuple class of the package that has the replaced fields
+            # has it as a field too -- a property computed from the fields is left alone)
+            base, new = rp
+            if e.attr in new:
+                return new[e.attr]
+            cands = self.nt_candidates(new)
+            if cands and all(e.attr in self.nt_fields(q) for q in cands):
+                return self.simplify(ast.Attribute(value=base, attr=e.attr, ctx=ast.Load()))
         p = opaque_parts(e.value)
         if p is not None:
             fields = getattr(e.value, "_ntfields", None)
@@ -1603,8 +1976,58 @@ def _sx_module_const(self, name, fr):
     try:
         ast.literal_eval(found)
     except Exception:
-        return None
+        return self.module_table(name, found, m)
     return found
+
+
+def _sx_module_table(self, name, value, m):
+    """A module-level lookup table: a name bound exactly once, at the top level of the module, to a dict / tuple /
+    list / set display whose keys and elements are literals or references to program-level constants, and which
+    nothing in the module stores into or mutates.  Reading it gives the display (its elements are evaluated in the
+    module's namespace, which is the namespace of every function the executor steps into)."""
+    binds = _module_bindings(m, name)
+    if len(binds) != 1 or binds[0] is not value:
+        return None
+    wrapped = value
+    if isinstance(value, ast.Call) and chain(value.func) in ("dict", "frozenset", "tuple", "MappingProxyType", "types.MappingProxyType") \
+            and len(value.args) == 1 and not value.keywords:
+        value = value.args[0]
+    if isinstance(value, ast.Dict):
+        parts = list(value.keys) + list(value.values)
+    elif isinstance(value, (ast.Tuple, ast.List, ast.Set)):
+        parts = list(value.elts)
+    else:
+        return None
+    ok = lambda x: x is not None and (isinstance(x, ast.Constant) or ((isinstance(x, (ast.Name, ast.Attribute)) and self.named(x) is not None))
+                                      or (isinstance(x, ast.Tuple) and all(ok(y) for y in x.elts)))
+    if not parts or not all(ok(x) for x in parts):
+        return None
+    for n in ast.walk(m.tree):
+        if isinstance(n, (ast.Subscript, ast.Attribute)) and isinstance(getattr(n, "ctx", None), (ast.Store, ast.Del)) \
+                and isinstance(n.value, ast.Name) and n.value.id == name:
+            return None
+        if isinstance(n, ast.Call) and isinstance(n.func, ast.Attribute) and n.func.attr in MUTATORS and isinstance(n.func.value, ast.Name) \
+                and n.func.value.id == name:
+            return None
+        if isinstance(n, ast.AugAssign) and isinstance(n.target, ast.Name) and n.target.id == name:
+            return None
+        if isinstance(n, ast.Global) and name in n.names:
+            return None
+    return value if wrapped is value or isinstance(value, ast.Dict) else wrapped
+
+
+def _sx_table_lookup(self, table, key):
+    """value stored under `key` in a dict display: (found?, value) -- found is True (value is the entry), False (no
+    key equals it) or None (not determined)"""
+    if not isinstance(table, ast.Dict) or any(k is None for k in table.keys):
+        return None, None
+    rels = [self.const_relation(key, k)[0] for k in table.keys]
+    hits = [i for i, r in enumerate(rels) if r is True]
+    if hits and all(r is not None for r in rels[hits[-1] + 1:]):
+        return True, table.values[hits[-1]]  # a later duplicate key wins
+    if rels and all(r is False for r in rels):
+        return False, None
+    return None, None
 
 
 def _sx_kill(self, st, marker):
@@ -1687,6 +2110,14 @@ def _sx_sym(self, e, st, fr):
                 if b is not None:
                     outs.append((s1.flag("used:" + self.sc.name), b))
                     continue
+            if isinstance(v, ast.Name) and v.id in self.self_names and e.attr in self.owner.methods:
+                # reading a property of the class is calling its getter
+                m = self.owner.methods[e.attr]
+                if any((chain(d) or "").split(".")[-1] in ("property", "cached_property") for d in m.node.decorator_list):
+                    r = self.inline(e, (m, v, True), [], [], s1, fr, False)
+                    if r is not None:
+                        outs.extend(r)
+                        continue
                 if any(c == vch or c.startswith(vch + ".") for vch in fr.volatile | self.class_volatile):
                     outs.append(self.opaque("read", node, [], [], s1, fr))
                     continue
@@ -1962,14 +2393,32 @@ def _sx_sym_call(self, e, st, fr, awaited=False):
             if r is not None:
                 outs.extend(r)
                 continue
+        if callee is not None and star:
+            # `f(a, *args, **kwargs)` forwarding the caller's own, unknown, variadic arguments: the explicit leading
+            # arguments are bound, every other parameter of the callee is unknown
+            fa = fr.fi.node.args
+            n_lead = next(i for i, a in enumerate(e.args + [None]) if a is None or isinstance(a, ast.Starred))
+            rest = e.args[n_lead:]
+            fwd = all(isinstance(a, ast.Starred) and isinstance(a.value, ast.Name) and fa.vararg is not None and a.value.id == fa.vararg.arg
+                      and a.value.id not in s1.env for a in rest) and len(rest) <= 1 \
+                and all(k.arg is not None or (isinstance(k.value, ast.Name) and fa.kwarg is not None and k.value.id == fa.kwarg.arg
+                                              and k.value.id not in s1.env) for k in e.keywords)
+            if fwd:
+                r = self.inline(e, callee, args[:n_lead], [(k, v) for k, v in kws if k is not None], s1, fr, awaited, forward=True)
+                if r is not None:
+                    outs.extend(r)
+                    continue
         if callee is not None:
             self.refused_sites.add(id(e))
+            self.refused_funcs.add(callee[0].qn)
         if not star:
             # a method handed over as a callable together with its arguments (functools.partial(self.m, a),
             # run_in_executor(None, self.m, a), to_thread(self.m, a), call_soon(self.m, a)): it runs -- at the
             # earliest -- here, with these arguments; step into it for its effects and carry on with the caller
             for i, a in enumerate(e.args):
-                cal = self.callee_of(a, s1, fr) if isinstance(a, (ast.Attribute, ast.Name)) and not isinstance(a, ast.Name) else None
+                cal = self.callee_of(a, s1, fr) if isinstance(a, ast.Attribute) else None
+                if isinstance(a, ast.Name) and a.id not in s1.env and a.id not in fr.locals:
+                    cal = self.callee_of(a, s1, fr)  # a plain function of the module handed over by name
                 if cal is not None:
                     is_partial = (chain(e.func) or "").split(".")[-1] == "partial"
                     if self.inline(a, cal, args[i + 1:], kws if is_partial else [], s1, fr, True, partial=True) is None:
@@ -2005,6 +2454,27 @@ def _sx_apply(self, e, fexpr, args, kws, st, fr, awaited):
             s2, val = self.opaque("call", fexpr, args, kws, st, fr)
             s2 = s2.bind(name, N(fr.marker("mut"), taint=taint))
             return [(s2, val)]
+    if isinstance(fexpr, ast.Attribute) and fexpr.attr == "get" and isinstance(fexpr.value, ast.Dict) and 1 <= len(args) <= 2 and not kws:
+        found, v = self.table_lookup(fexpr.value, args[0])
+        if found is True:
+            return [(st, v)]
+        if found is False:
+            return [(st, args[1] if len(args) == 2 else K(None))]
+    if isinstance(fexpr, ast.Attribute) and fexpr.attr == "_replace" and not args and kws and all(k is not None for k, _ in kws):
+        # namedtuple._replace on a value constructed here: the constructor call with the fields replaced
+        base = fexpr.value
+        bp, fields = opaque_parts(base), getattr(base, "_ntfields", None)
+        if bp is not None and getattr(base, "_ctor", False) and fields and all(k in fields for k, _ in kws) \
+                and len(bp[1]) <= len(fields) and not any(isinstance(x, ast.Starred) for x in bp[1]) and all(k.arg in fields for k in bp[2]):
+            vals = dict(zip(fields, bp[1]))
+            vals.update({k.arg: k.value for k in bp[2]})
+            vals.update(dict(kws))
+            if set(vals) == set(fields):
+                new = ast.Call(func=base.func, args=[bp[0]] + [vals[f] for f in fields], keywords=[])
+                for a_ in ("_ctor", "_cls", "_ntfields", "_truthy", "_taint"):
+                    if hasattr(base, a_):
+                        setattr(new, a_, getattr(base, a_))
+                return [(st, new)]
     pure = False
     if isinstance(fexpr, ast.Name) and fexpr.id in PURE_FUNCS and fexpr.id not in st.env:
         pure = True
@@ -2062,7 +2532,7 @@ def _sx_grow(self, old, method, args, kws):
     return ast.List(elts=elts, ctx=ast.Load()) if isinstance(old, ast.List) else ast.Set(elts=elts)
 
 
-def _sx_inline(self, call, callee, args, kws, st, fr, awaited, partial=False):
+def _sx_inline(self, call, callee, args, kws, st, fr, awaited, partial=False, forward=False):
     fi, recv, skip_first = callee
     if fr.depth >= self.max_depth or fi.qn in [q for q, _ in fr.stack] or fi.qn == fr.fi.qn:
         return None
@@ -2094,6 +2564,11 @@ def _sx_inline(self, call, callee, args, kws, st, fr, awaited, partial=False):
     defaults = [None] * (len(pdefs) - len(a.defaults)) + list(a.defaults)
     for p, d in list(zip(pdefs, defaults)) + list(zip(a.kwonlyargs, a.kw_defaults)):
         if p.arg not in env:
+            if forward:
+                # supplied (or not) by the forwarded *args / **kwargs: an unknown value, named like a parameter of an
+                # entry point is
+                env[p.arg] = N(p.arg)
+                continue
             if d is None:
                 if not partial:
                     return None
@@ -2124,6 +2599,14 @@ def _sx_inline(self, call, callee, args, kws, st, fr, awaited, partial=False):
 # statements and control flow
 
 
+_EXC_ALIASES = {"IOError": "OSError", "EnvironmentError": "OSError"}
+
+
+def failure_value(exc_name):
+    """the exception instance a failing effect raises under Scenario.fail: an opaque instance of the builtin class"""
+    return ast.Call(func=N("$exc@fail"), args=[N(exc_name)], keywords=[])
+
+
 def _exc_class_candidates(prog, exc):
     """names the raised value's class may have in the hierarchy: (builtin name or None, [package class qns]); (None, [])
     when the class is not known (a parameter, a computed class)"""
@@ -2150,7 +2633,7 @@ def _handler_may_catch(prog, h, exc):
         return True  # class not known: any handler may catch it
     types = h.type.elts if isinstance(h.type, ast.Tuple) else [h.type]
     for t in types:
-        tn = (chain(t) or "").split(".")[-1]
+        tn = _EXC_ALIASES.get((chain(t) or "").split(".")[-1], (chain(t) or "").split(".")[-1])
         if not tn or tn in ("Exception", "BaseException"):
             return True
         if builtin is not None and (tn == builtin.split(".")[-1] or prog.is_subclass(builtin, tn)):
@@ -2169,7 +2652,7 @@ def _handler_surely_catches(prog, h, exc):
         return False
     types = h.type.elts if isinstance(h.type, ast.Tuple) else [h.type]
     for t in types:
-        tn = (chain(t) or "").split(".")[-1]
+        tn = _EXC_ALIASES.get((chain(t) or "").split(".")[-1], (chain(t) or "").split(".")[-1])
         if builtin is not None and (tn == builtin.split(".")[-1] or prog.is_subclass(builtin, tn)):
             return True
         if builtin is None and any(m.split(".")[-1] == tn for m in prog.mro(qns[0])):
@@ -2316,6 +2799,17 @@ def _sx_assign_forks(self, value, st, fr):
 
 
 def _sx_step(self, fr, node, st, lab):
+    eff = self.sc.effects
+    if not eff or (fr.fi.qn, node.id) not in eff or node.kind in ("entry", "join", "T", "F", "handler"):
+        return self.step0(fr, node, st, lab)
+    key = (fr.fi.qn, node.id)
+    if key in self.sc.fail and "touched" not in st.flags and "via_exc" not in st.flags:
+        s = st.flag("failed:%s:%d" % key, "touched")
+        return self.exc_edges(fr, node, s, failure_value(self.sc.fail[key]), implicit=False)
+    return [(d, (s if l == "exc" else s.flag("touched")), l) for d, s, l in self.step0(fr, node, st, lab)]
+
+
+def _sx_step0(self, fr, node, st, lab):
     cfg = fr.cfg
     kind = node.kind
     a = node.ast
@@ -2517,7 +3011,137 @@ def _sx_run(self, fi, env=None):
         ps = a.posonlyargs + a.args
         if ps:
             self.self_names.add(ps[0].arg)
-    return self.exec_func(fi, St(dict(env or {})), 0, ())
+    w, wenv = self.entry_plan(fi)
+    if w is fi:
+        return self.exec_func(fi, St(dict(env or {})), 0, ())
+    # the decorators of fi put the wrapper w in its place: a call from outside runs w, which receives the instance
+    # as its first argument and reaches fi's body through the closure variable holding the wrapped function
+    self.wrapped[fi.qn] = w.qn
+    rename = {}
+    if m.cls is not None and not _is_static(m):
+        wa = w.node.args
+        wps = wa.posonlyargs + wa.args
+        if wps:
+            # the wrapper's first parameter receives the instance: it is the method's `self` under another name
+            own = sorted(self.self_names)
+            if own and wps[0].arg not in self.self_names:
+                rename[wps[0].arg] = N(own[0])
+            else:
+                self.self_names.add(wps[0].arg)
+        else:
+            raise AnalysisError("%s is replaced by the wrapper %s of its decorator, which takes the instance through *args: the rule "
+                                "cannot tell which expressions denote the instance" % (fi.short, w.short))
+    e2 = dict(wenv)
+    e2.update(rename)
+    e2.update(env or {})
+    self.refused_funcs.discard(fi.qn)
+    outs = self.exec_func(w, St(e2), 0, ((fi.qn + ENTRY_TAG, 0),))
+    if fi.qn in self.refused_funcs:
+        raise AnalysisError("%s is wrapped by a decorator (%s) that calls it in a way the rule cannot follow" % (fi.short, w.short))
+    return outs
+
+
+ENTRY_TAG = "@entry"
+TRANSPARENT_DECORATORS = {"staticmethod", "classmethod", "abstractmethod", "override", "final", "no_type_check"}
+
+
+def _sx_entry_plan(self, fi):
+    """(function, closure environment) that runs when `fi` is invoked from outside: fi itself, or the function its
+    decorators leave in its place.  `@d` / `@d(args)` with d a function of the module or of the class is *executed*
+    (d(fi) -- its nested wrapper and the closure it captures are what it returns); a decorator the rule cannot
+    interpret is refused, since it may change what a call does."""
+    decos = [d for d in fi.node.decorator_list
+             if (chain(d.func if isinstance(d, ast.Call) else d) or "?").split(".")[-1] not in TRANSPARENT_DECORATORS]
+    if not decos:
+        return fi, {}
+    from ..cfg import cfg_of
+    fr0 = Frame(fi, 0, (), cfg_of(fi))
+    cur, cenv = N("$def@" + fi.qn), {}
+
+    def refuse(d, why):
+        raise AnalysisError("%s: decorator `%s` is outside the rule's vocabulary (%s)" % (fi.short, T(d)[:60], why))
+
+    def lookup(d, f):
+        c = chain(f)
+        if c and "." not in c:
+            for q in ([fi.cls.qn + "." + c] if fi.cls is not None else []) + [fi.module.name + "." + c]:
+                t = self.prog.funcs.get(q)
+                if t is not None and t.parent is None:
+                    return t
+        refuse(d, "not a function of the module or the class")
+
+    def call(d, target, tenv, args, kws):
+        a = target.node.args
+        if a.vararg or a.kwarg or _is_generator(target) or target.is_async:
+            refuse(d, "signature of %s" % target.short)
+        ps = a.posonlyargs + a.args
+        defaults = [None] * (len(ps) - len(a.defaults)) + list(a.defaults)
+        env = dict(tenv)
+        bound = set()
+        if len(args) > len(ps):
+            refuse(d, "arguments of %s" % target.short)
+        for p_, v in zip(ps, args):
+            env[p_.arg] = v
+            bound.add(p_.arg)
+        for k, v in kws:
+            if k not in {p_.arg for p_ in ps + a.kwonlyargs} or k in bound:
+                refuse(d, "arguments of %s" % target.short)
+            env[k] = v
+            bound.add(k)
+        for p_, dflt in list(zip(ps, defaults)) + list(zip(a.kwonlyargs, a.kw_defaults)):
+            if p_.arg not in bound:
+                if dflt is None:
+                    refuse(d, "arguments of %s" % target.short)
+                env[p_.arg] = dflt if isinstance(dflt, ast.Constant) else N("$default@%s:%s" % (target.short, p_.arg))
+        results = {}
+        for kind, val, s_out in self.exec_func(target, St(env), 0, ()):
+            if kind != "return":
+                if "via_exc" in s_out.flags:
+                    continue
+                refuse(d, "%s may raise" % target.short)
+            results.setdefault(T(val), (val, s_out))
+        if len(results) != 1:
+            refuse(d, "%s returns %d different values" % (target.short, len(results)))
+        return list(results.values())[0]
+
+    def as_def(v):
+        """the function object a returned value is: `$def@...`, also behind functools.wraps(f)(g) / update_wrapper(g, f)"""
+        if isinstance(v, ast.Name) and v.id.startswith("$def@"):
+            return v
+        p = opaque_parts(v)
+        if p is not None:
+            inner = opaque_parts(p[0])
+            if inner is not None and (chain(inner[0]) or "").split(".")[-1] == "wraps" and len(p[1]) == 1:
+                return as_def(p[1][0])
+            if (chain(p[0]) or "").split(".")[-1] == "update_wrapper" and p[1]:
+                return as_def(p[1][0])
+        return None
+
+    for d in reversed(decos):
+        if isinstance(d, ast.Call):
+            factory = lookup(d, d.func)
+            if any(isinstance(x, ast.Starred) for x in d.args) or any(k.arg is None for k in d.keywords):
+                refuse(d, "starred arguments")
+            vals = []
+            for x in list(d.args) + [k.value for k in d.keywords]:
+                o = self.sym(x, St(), fr0)
+                if len(o) != 1 or o[0][1] is RAISE:
+                    refuse(d, "argument %s" % T(x)[:40])
+                vals.append(o[0][1])
+            made, s_made = call(d, factory, {}, vals[: len(d.args)], [(k.arg, v) for k, v in zip(d.keywords, vals[len(d.args):])])
+            made = as_def(made)
+            if made is None or made.id[5:] not in self.prog.funcs:
+                refuse(d, "%s does not return a function defined in it" % factory.short)
+            target, tenv = self.prog.funcs[made.id[5:]], {k: v for k, v in s_made.env.items() if not k.startswith("$")}
+        else:
+            target, tenv = lookup(d, d), {}
+        res, s_res = call(d, target, tenv, [cur], [])
+        new = as_def(res)
+        if new is None or new.id[5:] not in self.prog.funcs:
+            refuse(d, "%s does not return a function" % target.short)
+        if new.id != cur.id:
+            cur, cenv = new, {k: v for k, v in s_res.env.items() if not k.startswith("$")}
+    return self.prog.funcs[cur.id[5:]], cenv
 
 
 for _n, _f in list(globals().items()):
